@@ -431,6 +431,9 @@ func (vc *VC) verifyRun(fn *ssa.Function, fc *FuncContract, key, caseName string
 	if gone := vc.eng.vanishedLoops(fn, fc); len(gone) > 0 {
 		panic(execError{fmt.Sprintf("the contract has clauses for loop %v of %s, which no longer exists (removed or moved into another function)", gone, fn.Name())})
 	}
+	if d := vc.eng.droppedLoopHints(fn, fc); len(d) > 0 {
+		vc.notes = append(vc.notes, fmt.Sprintf("clauses written for loop %v of %s are not used: that loop no longer exists in this function (invariants and variants are proof hints; step clauses are dropped only for properties that keep a bounded stand-in)", d, fn.Name()))
+	}
 	if vc.eng.loopAlign(fn); vc.eng.loopAl[fn].ambiguous && len(fc.Loops) > 0 {
 		vc.notes = append(vc.notes, "the number of loops of "+fn.Name()+" changed and the loops cannot be matched unambiguously with the ones the contract was written for; loop clauses are applied by ordinal")
 	}
